@@ -138,7 +138,7 @@ fn check(r: &mut refcodec::evidence::Report, enum_name: &str, target: Option<&(&
                 Err(p) => r.violation(&format!("{enum_name} outside reply set {}", panic_signature(&p)), &format!("zvt_parse({}) panicked: {p}", hex(pk)), case),
                 Ok(Ok(v)) => r.violation(
                     &format!("{enum_name} accepts a control field outside its reply set"),
-                    &format!("control field {:02x}{:02x} is not in the reply set of {enum_name} but zvt_parse returned Ok({})", pk[0], pk[1], &v[..v.len().min(120)]),
+                    &format!("control field {:02x}{:02x} is not in the reply set of {enum_name} but zvt_parse returned Ok({})", pk[0], pk[1], v.chars().take(120).collect::<String>()),
                     case,
                 ),
                 Ok(Err(_)) => {}
